@@ -1051,17 +1051,20 @@ func clientLoop(c *webClient, ws *websocket.Conn, versionError bool) error {
 
 func pushDownConn(c *webClient, id string, up conn.Up, tracks []conn.UpTrack, replace string) error {
 	var requested []conn.UpTrack
+	var inherited []string
 	limitSid := false
 	if up != nil {
 		var old *rtpDownConnection
 		if replace != "" {
 			old = getDownConn(c, replace)
-		} else {
+		}
+		if old == nil {
 			old = getDownConn(c, up.Id())
 		}
 		var req []string
 		if old != nil {
 			req = old.requested
+			inherited = req
 		}
 		if req == nil {
 			var ok bool
@@ -1092,12 +1095,17 @@ func pushDownConn(c *webClient, id string, up conn.Up, tracks []conn.UpTrack, re
 		return nil
 	}
 
-	down, _, err := addDownConn(c, up)
+	down, isnew, err := addDownConn(c, up)
 	if err != nil {
 		if errors.Is(err, os.ErrClosed) {
 			return nil
 		}
 		return err
+	}
+	if isnew && inherited != nil {
+		// a stream inherits the request made for the stream
+		// that it replaces
+		down.requested = inherited
 	}
 	done, err := replaceTracks(down, requested, limitSid)
 	if err != nil || !done {
